@@ -45,6 +45,7 @@ class FieldInfo:
     annotation: str
     owner: str
     factory: ast.expr | None = None     # default_factory=<expr> of dataclasses.field / equinox.field
+    options: dict = field(default_factory=dict)   # every keyword of field(...): name -> constant value, else the ast node
 
 
 @dataclass
@@ -213,15 +214,17 @@ class Program:
                 has_default = s.value is not None
                 default = s.value
                 factory = None
+                options = {}
                 if s.value is not None and isinstance(s.value, ast.Call) and ast.unparse(s.value.func) in (
-                        'equinox.field', 'eqx.field', 'field'):
+                        'equinox.field', 'eqx.field', 'field', 'dataclasses.field'):
                     kw = {k.arg: k.value for k in s.value.keywords}
+                    options = {k: (v.value if isinstance(v, ast.Constant) else v) for k, v in kw.items() if k}
                     static = isinstance(kw.get('static'), ast.Constant) and kw['static'].value is True
                     has_default = 'default' in kw or 'default_factory' in kw
                     default = kw.get('default')
                     factory = kw.get('default_factory')
                 ci.fields.append(FieldInfo(s.target.id, static, classvar, has_default, default, ann, node.name,
-                                           factory))
+                                           factory, options))
                 if s.value is not None and (classvar or not isinstance(s.value, ast.Call) or not static):
                     # class-level value (ClassVar constants, defaults, `operator_class: ... = None`)
                     if not (isinstance(s.value, ast.Call) and ast.unparse(s.value.func).endswith('field')):
